@@ -15,6 +15,7 @@ import (
 	"sort"
 	"strings"
 	"syscall"
+	"time"
 
 	p9p "github.com/frobnitzem/go-p9p"
 	"github.com/frobnitzem/go-p9p/ufs"
@@ -35,6 +36,7 @@ type Op struct {
 	Count  int      `json:",omitempty"`
 	Data   string   `json:",omitempty"`
 	Length uint64   `json:",omitempty"`
+	PermHi uint32   `json:",omitempty"` // create: further permission bits (DMSYMLINK, DMNAMEDPIPE, DMAPPEND, ...)
 }
 
 func (o Op) String() string {
@@ -99,7 +101,7 @@ func newWorld(extra func(top string) error) (*world, error) {
 }
 
 func populate(root string) error {
-	for _, d := range []string{"", "a", "a/d", "e"} {
+	for _, d := range []string{"", "a", "a/d", "a/d/k", "e"} {
 		if err := os.MkdirAll(filepath.Join(root, d), 0755); err != nil {
 			return err
 		}
@@ -174,6 +176,7 @@ func (w *world) do(op Op) callResult {
 			if op.Dir {
 				perm |= p9p.DMDIR
 			}
+			perm |= op.PermHi
 			r.qid, _, r.err = s.Create(ctx, fid, string(op.Name), perm, p9p.Flag(op.Mode))
 		case "read":
 			buf := make([]byte, op.Count)
@@ -195,6 +198,10 @@ func (w *world) do(op Op) callResult {
 			d := noTouch()
 			d.Name = string(op.Name)
 			r.err = s.WStat(ctx, fid, d)
+		case "touchroot":
+			// not a request: time passes and the exported directory's mtime changes on the host
+			t := time.Now().Add(time.Duration(op.Count+1) * time.Second)
+			os.Chtimes(w.export, t, t)
 		case "remove":
 			r.err = s.Remove(ctx, fid)
 		case "clunk":
